@@ -29,7 +29,7 @@ from ..core import Ctx
 from ..exc import EscapeAnalysis, ExcModel
 from ..loader import AnalysisError, ClassInfo, FunctionInfo, walk_scope
 from ..resolve import last_attr
-from ..util import calls, is_none_test, mini_eval, one
+from ..util import calls, mini_eval, one
 from ._g4_helpers import ReleaseFlow, bind_args, live_exc_pred, txt, require_count
 
 META = {
@@ -430,10 +430,7 @@ def _table_rules(ctx: Ctx, flows: dict[str, ReleaseFlow]) -> None:
     unchanged = [r for r in mrets if isinstance(r.value, ast.Tuple) and [txt(e) for e in r.value.elts] == params[:2]]
     from ._g4_helpers import _none_narrowing
 
-    def _narrow(test: ast.expr) -> tuple[str, bool] | None:
-        if isinstance(test, ast.Compare) and isinstance(test.left, ast.NamedExpr):
-            test = ast.Compare(left=test.left.target, ops=test.ops, comparators=test.comparators)
-        return _none_narrowing(test)
+    _narrow = _none_narrowing
 
     none_if = [n for n in walk_scope(mw.node) if isinstance(n, ast.If) and (t2 := _narrow(n.test)) is not None and t2[0] == res_var]
     if not none_if:
@@ -521,12 +518,14 @@ def _table_rules(ctx: Ctx, flows: dict[str, ReleaseFlow]) -> None:
                 writes = [c for c in writes if fcfg.attempt(c) & after]
                 with_md = [c for c in writes if any(k.arg == "custom_metadata" and isinstance(k.value, ast.Name) and k.value.id == cm_name for k in c.keywords)]
                 without = [c for c in writes if c not in with_md]
-                tests = [n for n in walk_scope(fi.node) if isinstance(n, ast.If) and (t := is_none_test(n.test)) is not None and isinstance(t[0], ast.Name) and t[0].id == cm_name and (fcfg.done(n) & after)]
+                from ._g4_helpers import _none_narrowing as _nn
+
+                tests = [n for n in walk_scope(fi.node) if isinstance(n, ast.If) and (t := _nn(n.test)) is not None and t[0] == cm_name and (fcfg.done(n) & after)]
                 ok = bool(with_md)
                 if ok and without:
                     ok = bool(tests)
                     for tst in tests[:1]:
-                        t = is_none_test(tst.test)
+                        t = _nn(tst.test)
                         assert t is not None
                         tgn = {b for (_a, b) in fcfg.test_edges(tst, "F" if t[1] else "T")}  # cm is NOT None
                         loops = {i for lp in walk_scope(fi.node) if isinstance(lp, (ast.For, ast.While)) for i in fcfg.done(lp)}
